@@ -8,6 +8,7 @@
         pred    - (DefaultPredicate) | <code><R|S|F>,...;d<R|S|F>;e<R|S|F>  (status table; other statuses; transport errors)
         script  beh;beh;... or -   beh = <out>/<read>/<lat>  read = * | <k>
                 out = S<code>:<hexRetryAfter>:<chal> | E<isnet><timeout><temporary>[:shape] | TO (=E111) | ER (=E000)
+   <id> Q <pred> ... <script> <opts> <G|P<hexform>> <tokenscript>     (auth client, token request modelled)
    <id> D <pred> <maxretry> <minw> <maxw> <tbl> <dflt> <attempt> <out>
    <id> B <D|P> <maxretry> <minw> <maxw> <base> <fnum> <fden> <jnum> <jden> <attempt> <out> <seen>
         seen    STOP | FAIL | PANIC | W<d> *)
@@ -79,6 +80,7 @@ let show_result (r : result) : string =
   | RResp (c, _) -> "RESP" ^ string_of_z c
   | RErr (ne, tmo, tmp) -> Printf.sprintf "EERR%d%d%d" (Bool.to_int ne) (Bool.to_int tmo) (Bool.to_int tmp)
   | RPredErr -> "EPRED"
+  | RTokenResp c -> "ETOKEN" ^ string_of_z c
   | RCtx -> "ECTX"
   | RPanic -> "PANIC"
   | RNotRewindable -> "ENOTREWINDABLE"
@@ -168,6 +170,20 @@ let () =
         Printf.printf "%s %s end=%s first=%s second=%s third=%s\n" id (show_result o.a_res) (string_of_z o.a_time)
           (show_attempts bd.bdata o.a_first) (show_attempts bd.bdata o.a_second) (show_attempts bd.bdata o.a_third)
       end
+    | [id; "Q"; pred; mr; mn; mx; tbl; dflt; cn; kind; body; script; _opts; tokbody; tokscript] ->
+      (* auth client with the token request spelled out: tokbody = G (distribution GET, no body)
+         or P<hexform> (OAuth2 POST), tokscript = the token service's answers *)
+      let p = table_policy (parse_pred pred) (z_of_string mr) (z_of_string mn) (z_of_string mx)
+          (List.map z_of_string (split_on ',' tbl)) (z_of_string dflt) in
+      let bd = { bk = parse_kind kind; bdata = str_of_hex body } in
+      let tb = if tokbody.[0] = 'P'
+        then { bk = KReplay; bdata = str_of_hex (String.sub tokbody 1 (String.length tokbody - 1)) }
+        else { bk = KNone; bdata = [] } in
+      let sc = List.map parse_beh (split_on ';' script) in
+      let tsc = List.map parse_beh (split_on ';' tokscript) in
+      let o = auth_do_tok p (parse_cancel cn) bd sc tb tsc in
+      Printf.printf "%s %s end=%s first=%s token=%s second=%s\n" id (show_result o.ak_res) (string_of_z o.ak_time)
+        (show_attempts bd.bdata o.ak_first) (show_attempts tb.bdata o.ak_token) (show_attempts bd.bdata o.ak_second)
     | [id; "D"; pred; mr; mn; mx; tbl; dflt; att; out] ->
       let p = table_policy (parse_pred pred) (z_of_string mr) (z_of_string mn) (z_of_string mx)
           (List.map z_of_string (split_on ',' tbl)) (z_of_string dflt) in
